@@ -108,6 +108,12 @@ CHECKS["C17"] = {
     "technique": "symbolic execution (CrossHair/z3) of the codec registry and built-in codecs over a file-system model with symbolic contents and registration sequences; real-OS replay",
 }
 
+CHECKS["C19"] = {
+    "text": "Real set_store('dbfs') / CommitType.parse / DBFSStore / codecs / evaluation / load code against an in-process fake of dbutils.fs over the file-system model: (1) the commit type given as documented name, enum name or value in a solver-chosen case, None, or an unknown name - documented names accepted, unknown ones a DDSException; (2) under each commit type two evaluations of a three-path pipeline whose two tracked-variable versions per step and payload are solver variables: keep returns the plain values, 'full' leaves byte-identical copies plus redirect records, 'links only' records only, 'none' nothing, load returns the latest value exactly when a record exists, also from a fresh process; (3) blobs of kind string / bytes / pickle relabelled with the legacy reference dbfs.<kind> decode to the original (symbolic) value. No real Databricks: counterexamples are replayed against the fake only.",
+    "design_ref": "DESIGN.md 5-C19",
+    "technique": "symbolic execution (CrossHair/z3) of the real DBFS store against a fake dbutils over a file-system model; commit-type spelling, versions per step and contents as solver variables",
+}
+
 NOT_APPLICABLE = {}
 
 
